@@ -1064,6 +1064,8 @@ def _map_find(interp, path, mref, key):
     conds = []
     hits = []
     for i, s_ in enumerate(m.fields):
+        if z3.is_false(s_.fields[2].term):
+            continue            # a slot that is certainly free holds no key
         c = z3.And(s_.fields[2].term, val_eq(s_.fields[0], key))
         hits.append(c)
         conds.append((c, i))
@@ -1185,7 +1187,7 @@ def m_map_get(interp, path, args, ret_ty, callee):
 def m_map_contains(interp, path, args, ret_ty, callee):
     m = _symmap(interp, path, args[0])
     key = deref(interp, path, args[1])
-    hits = [z3.And(s_.fields[2].term, val_eq(s_.fields[0], key)) for s_ in m.fields]
+    hits = [z3.And(s_.fields[2].term, val_eq(s_.fields[0], key)) for s_ in m.fields if not z3.is_false(s_.fields[2].term)]
     return BoolV(z3.Or(hits) if hits else z3.BoolVal(False))
 
 
@@ -1236,6 +1238,12 @@ def m_map_new(interp, path, args, ret_ty, callee):
     return StructV("SymMap<empty>", [])
 
 
+@model(r"^(BTreeSet|IndexSet|HashSet)::<.*>::new$", "empty set with the job's bound of free slots")
+def m_set_new(interp, path, args, ret_ty, callee):
+    n = getattr(interp, "fresh_capacity", 0)
+    return StructV("SymMap<set>", [StructV("Slot", [UndefV(), UnitV(), BoolV(False)]) for _ in range(n)])
+
+
 @model(r"^Box::<.*>::new$", "a box is its content")
 def m_box_new(interp, path, args, ret_ty, callee):
     return args[0]
@@ -1277,11 +1285,11 @@ def m_intoiter_next(interp, path, args, ret_ty, callee):
     if r.kind != "ref" or hasattr(r, "target"):
         raise Refuse("Iterator::next needs a reference to the iterator place")
     it = interp.read(path, r.fid, r.local, r.projs)
-    if it.kind != "struct" or it.ty != "IndexMapIntoIter":
+    if it.kind != "struct" or it.ty not in ("IndexMapIntoIter", "VecIntoIter"):
         raise Refuse("Iterator::next on %r" % (it,))
     if not it.fields:
         return EnumV(ret_ty, 0, {0: []})
-    interp.write(path, r.fid, r.local, r.projs, StructV("IndexMapIntoIter", it.fields[1:]))
+    interp.write(path, r.fid, r.local, r.projs, StructV(it.ty, it.fields[1:]))
     return EnumV(ret_ty, 1, {1: [it.fields[0]]})
 
 
@@ -1400,11 +1408,11 @@ def _is_entry_set(v):
 
 
 @model(r"^<&(IndexSet|BTreeSet|HashSet|Vec)<.*> as IntoIterator>::into_iter$|^(IndexSet|BTreeSet|HashSet)::<.*>::iter$|"
-       r"<impl \[.*\]>::iter$",
+       r"<impl \[.*\]>::iter$|^<&\[.*\] as IntoIterator>::into_iter$",
        "borrowing iterator over an entry-list set / vector (elements in order)")
 def m_set_iter(interp, path, args, ret_ty, callee):
     v = deref(interp, path, args[0])
-    if not (_is_entry_set(v) or (v.kind == "struct" and norm_ty(v.ty).startswith("Vec<"))):
+    if not (_is_entry_set(v) or (v.kind == "struct" and norm_ty(v.ty).startswith(("Vec<", "[")))):
         raise Refuse("iteration over %r" % (v,))
     return StructV("SetRefIter", list(v.fields))
 
@@ -1424,7 +1432,7 @@ def m_uint_is_zero(interp, path, args, ret_ty, callee):
     return BoolV(deref(interp, path, args[0]).term == 0)
 
 
-@model(r"^<(set::|btree_set::|hash_set::)?Iter<.*> as Iterator>::next$", "next element by reference")
+@model(r"^<(set::|btree_set::|hash_set::|slice::)?Iter<.*> as Iterator>::next$", "next element by reference")
 def m_set_iter_next(interp, path, args, ret_ty, callee):
     from .interp import _ConstRef
     r = args[0]
@@ -1529,7 +1537,7 @@ def m_set_contains(interp, path, args, ret_ty, callee):
     if _is_entry_set(v):
         return BoolV(z3.Or([val_eq(e, key) for e in v.fields]) if v.fields else z3.BoolVal(False))
     m = _symmap(interp, path, args[0])
-    hits = [z3.And(s_.fields[2].term, val_eq(s_.fields[0], key)) for s_ in m.fields]
+    hits = [z3.And(s_.fields[2].term, val_eq(s_.fields[0], key)) for s_ in m.fields if not z3.is_false(s_.fields[2].term)]
     return BoolV(z3.Or(hits) if hits else z3.BoolVal(False))
 
 
@@ -1698,6 +1706,25 @@ def m_bnum_try_from_prim(interp, path, args, ret_ty, callee):
     x = args[0].term
     ok = in_range(x, to)
     return EnumV(ret_ty, z3.If(ok, 0, 1), {0: [IntV(x, to)], 1: [StructV("TryFromIntError", [])]})
+
+
+@model(r"^<Vec<.*> as IntoIterator>::into_iter$", "consuming iterator over an entry-list vector")
+def m_vec_into_iter(interp, path, args, ret_ty, callee):
+    v = args[0]
+    if v.kind != "struct" or not norm_ty(v.ty).startswith("Vec<"):
+        raise Refuse("Vec::into_iter on %r" % (v,))
+    return StructV("VecIntoIter", list(v.fields))
+
+
+@model(r"^<Vec<.*> as (__)?Deref>::deref$", "a vector viewed as a slice: same elements (entry-list model)")
+def m_vec_deref(interp, path, args, ret_ty, callee):
+    from .interp import _ConstRef
+    r = args[0]
+    if isinstance(r, _ConstRef):
+        return _ConstRef(ret_ty or "&[T]", r.target)
+    if r.kind == "ref":
+        return RefV(ret_ty or "&[T]", r.fid, r.local, r.projs)
+    raise Refuse("Vec::deref on %r" % (r,))
 
 
 @model(r"^<.* as Clone>::clone$", "Copy types: bitwise copy")
